@@ -317,6 +317,70 @@ def flatten_fci(items, ctx, modpath):
     return out
 
 
+def expand_derive_default(items, ctx):
+    """R23: `#[derive(.., Default, ..)] struct T<..> { f: X, .. }` -> the derive entry is removed and the impl that the
+    derive macro expands to (Rust reference, derive(Default) on structs: every field is `Default::default()`) is emitted
+    as an ordinary item, so it gets a function key (`mod::T::Default::default`), a contract and obligations."""
+    out = []
+    for it in items:
+        out.append(it)
+        if it.kind == "mod" and it.children is not None:
+            it.children = expand_derive_default(it.children, ctx)
+            continue
+        if it.kind != "struct" or it.body is None:
+            continue
+        hit = None
+        for ai, a in enumerate(it.attrs):
+            txt = text_of(a)
+            m = re.match(r"#\s*\[\s*derive\s*\((.*)\)\s*\]\s*$", txt, re.S)
+            if m and "Default" in [x.strip() for x in m.group(1).split(",")]:
+                hit = (ai, [x.strip() for x in m.group(1).split(",") if x.strip()])
+        if hit is None:
+            continue
+        ai, parts = hit
+        keep = [x for x in parts if x != "Default"]
+        line = it.line
+        if keep:
+            it.attrs[ai] = [t for t in lex("#[derive(%s)]" % ", ".join(keep)) if t.kind != "ws"]
+            for t in it.attrs[ai]:
+                t.line = line
+        else:
+            del it.attrs[ai]
+        mh = re.search(r"struct\s+(\w+)\s*(<[^>{]*>)?", text_of(it.header))
+        if not mh:
+            _err("unsupported: derive(Default) struct header %s" % it.name)
+        gen = mh.group(2) or ""
+        # field names: identifiers followed by ':' at depth 0 of the body
+        fields = []
+        depth = 0
+        b = sig(it.body)
+        for i, t in enumerate(b):
+            if t.text in ("<", "(", "[", "{"):
+                depth += 1
+            elif t.text in (">", ")", "]", "}"):
+                depth -= 1
+            elif t.text == ">>":
+                depth -= 2
+            elif t.text == "<<":
+                depth += 2
+            elif depth == 0 and t.kind == "ident" and i + 1 < len(b) and b[i + 1].text == ":" and (i == 0 or b[i - 1].text in (",", "pub", ")")):
+                fields.append(t.text)
+        ctor = ", ".join("%s: Default::default()" % f for f in fields)
+        src = "impl%s Default for %s%s {\n    fn default() -> Self {\n        %s { %s }\n    }\n}\n" % (gen, mh.group(1), gen, mh.group(1), ctor)
+        toks = strip_noise(lex(src))
+        for t in toks:
+            t.line = line
+        new = parse_items(toks)
+        for n_ in new:
+            n_.line = line
+            for c in (n_.children or []):
+                c.line = line
+        out += new
+        ctx.log.append({"rule": "R23", "file": ctx.cur_file, "line": line,
+                        "what": "derive(Default) of %s expanded to the explicit field-wise impl (%s)" % (it.name, ", ".join(fields))})
+    return out
+
+
 def split_iterators(items, ctx):
     """R7: `impl Iterator for T { type Item = X; fn next }` is kept as a #[verifier::external] shell and
     `next` is duplicated verbatim as an inherent method (which receives the contract)."""
